@@ -42,6 +42,17 @@ theorem C11_two_views_one_value {s : State} (h : Reach s) {n : String} {l : Nat}
     layerGet_eq_value (hw.att_lt n l hn) (by rw [hw.att_dims n l hn]; exact hc)
   exact ⟨h1.trans h2.symm, h2⟩
 
+/-- The scope of every "no entry of any other layer" below: in every history of the op language no two layer objects
+    share an array, every layer's array is allocated, and a legacy layer never owns the grid's `_empty_mask`.  This is an
+    invariant of the *op language*, not of Python: on the legacy implementation `layer.data` is a plain attribute and
+    `l2.data = l1.data` would make two layers alias — that rebinding is not an op (design.d/C11.md, known weaknesses);
+    on the new implementation `layer.data = arr` is `set_cells(arr)`, a copy (`Op.setFrom`). -/
+theorem C11_layers_never_share_an_array {s : State} (h : Reach s) :
+    (∀ l1 l2, l1 < s.nLayers → l2 < s.nLayers → (s.layers l1).data = (s.layers l2).data → l1 = l2) ∧
+    (∀ l, l < s.nLayers → (s.layers l).data < s.next) ∧
+    (s.impl ≠ .new → ∀ l, l < s.nLayers → (s.layers l).data ≠ 0) :=
+  ⟨h.wf.data_inj, h.wf.data_lt, h.wf.legacy_data⟩
+
 /-- A write through the cell attribute is read back through the layer (and through the cell), and it
     changes no other entry of this layer and no entry of any other layer. -/
 theorem C11_cell_write_read_through_layer {s s' : State} (h : Reach s) {n : String} {l : Nat}
@@ -1274,10 +1285,12 @@ theorem C11_within_radius_symmetric (moore torus : Bool) (dims : List Nat) (c c'
   unfold withinRadius
   rw [hds dims c c']
 
-/-- `get_neighborhood_mask(c, include_center, radius)` kept as a mask: it is true exactly at the cells of
-    the grid within `radius` steps of `c` (king moves for Moore, rook steps for von Neumann; the shorter
-    way round on a torus), at `c` itself iff `include_center`; both output forms describe it; no layer
-    value changes. -/
+/-- `get_neighborhood_mask(c, include_center, radius)` kept as a mask: what the op leaves behind — the saved mask is
+    the predicate both output forms describe, no layer value and no shape changes — and the model's *definition* of
+    that predicate, spelled out: the cells of the grid within `radius` steps of `c` in the grid's metric (king moves for
+    Moore, rook steps for von Neumann; the shorter way round on a torus), `c` itself iff `include_center`.  That this
+    metric ball is what `get_neighborhood` enumerates is not said here: `C11_neighborhood_mask_is_hop_closure_partial`
+    (Props/C11Ball.lean, against C07's model, on a sample of grids) and the oracle (against the running code). -/
 theorem C11_neighborhood_mask_exact {s s' : State} {k : Nat} {moore torus : Bool} {c : Coord} {ic : Bool}
     {r : Nat} {list : List Coord} {mask : List Bool}
     (h : nbhdMask s k (some moore) torus c ic r = (s', .sel list mask)) :
